@@ -29,7 +29,7 @@ func newExec(w *World, ss *SpecSet, fn *ssa.Function, spec *FuncSpec) *Exec {
 		heapInfos: map[string]*heapInfo{}, obCount: map[string]int{}, assumed: map[string]bool{},
 		modset: map[string][]modLoc{}, closureIDs: map[string]*Closure{}, cardDone: map[string]bool{},
 		typeTags: map[string]int{}, boxAx: map[string]bool{}, usedSpecs: map[string]*FuncSpec{},
-		wsCache: map[*ssa.Function]map[string]bool{}, globalByRef: map[string]*ssa.Global{}, epochFrames: map[int]*epochFrame{}, boxClosures: map[string]*Closure{}, defaultSpecs: map[string]*FuncSpec{}}
+		wsCache: map[*ssa.Function]map[string]bool{}, globalByRef: map[string]*ssa.Global{}, epochFrames: map[int]*epochFrame{}, boxClosures: map[string]*Closure{}, defaultSpecs: map[string]*FuncSpec{}, witnesses: map[string]Val{}}
 	return e
 }
 
@@ -84,8 +84,10 @@ func verifyFunction(w *World, ss *SpecSet, fn *ssa.Function, spec *FuncSpec) (re
 	for _, fv := range fn.FreeVars {
 		v := e.havocVal(st, fv.Type(), "fv_"+fv.Name())
 		binds = append(binds, v)
-		fr.entryParams[fv.Name()] = v
-		// a captured variable: the contract may name it directly (its content)
+		if v.T != "" {
+			e.ctx.assume(lt("0", v.T)) // the address of a captured variable is never nil
+		}
+		// a captured variable: the contract names it directly (its content)
 		fr.captured[fv.Name()] = v
 	}
 	// logical variables of the contract: arbitrary values
@@ -112,7 +114,7 @@ func verifyFunction(w *World, ss *SpecSet, fn *ssa.Function, spec *FuncSpec) (re
 		}
 		for _, l := range c.Locs {
 			for _, hl := range menv.evalLoc(l) {
-				e.modset[hl.heap] = append(e.modset[hl.heap], modLoc{ref: hl.ref, cond: cond, pred: hl.pred})
+				e.modset[hl.heap] = append(e.modset[hl.heap], modLoc{ref: hl.ref, cond: cond, pred: hl.pred, all: hl.all})
 			}
 		}
 	}
@@ -126,6 +128,34 @@ func verifyFunction(w *World, ss *SpecSet, fn *ssa.Function, spec *FuncSpec) (re
 		v := env.eval(c.E)
 		e.ctx.assume(v.T)
 		reqs = append(reqs, v.T)
+	}
+	// unchecked assumptions of the contract (reported in the evidence)
+	for _, c := range spec.Assumes2 {
+		env := e.specEnv(fr, st, nil)
+		for k, v := range fr.entryParams {
+			env.vars[k] = v
+		}
+		v := env.eval(c.E)
+		e.ctx.assume(v.T)
+		e.trust("UNCHECKED assumption of " + e.key + " (" + c.Line + "): " + c.Src)
+	}
+	// lemmas proved in `prove` blocks of the same package, imported by name
+	for _, u := range spec.Uses {
+		lb, ok := ss.Funcs[spec.Pkg+".prove "+u]
+		if !ok {
+			continue
+		}
+		env := &SpecEnv{ex: e, st: st, old: st, vars: map[string]Val{}, spec: spec, nextRef0: e.nextRef0}
+		if len(lb.Assumes) > 0 {
+			e.specErrors = append(e.specErrors, "uses "+u+": a prove block with `given` clauses cannot be imported")
+			continue
+		}
+		for _, c := range lb.Claims {
+			v := env.eval(c.E)
+			e.ctx.assumeGlobal(v.T)
+		}
+		e.usedSpecs[spec.Pkg+".prove "+u] = lb
+		e.trust("lemma " + u + " (" + lb.Line + ") is used here as a hypothesis; it is proved separately by its `prove` block")
 	}
 	// facts established by the package initialiser about never-reassigned globals
 	for _, g := range ss.Globals {
@@ -158,6 +188,7 @@ func verifyFunction(w *World, ss *SpecSet, fn *ssa.Function, spec *FuncSpec) (re
 			}
 			e.oblige(fr, rst, name, "postcondition: "+c.Src, pos, v.T)
 		}
+		e.checkGuarantees(fr, rst, pos)
 		// reachability cover of this return
 		o := &Obligation{Kind: "vac-reach", Func: e.key, Pos: w.pos(pos), Desc: "return is reachable under the preconditions",
 			nhyps: len(e.ctx.hyps), pc: rst.pc, goal: "true", ctx: e.ctx, Vacuity: true, Props: spec.Props, state: rst.id}
